@@ -205,7 +205,7 @@ pub fn prop06() -> HistProp {
         weights: liq_weights(),
         min_ops: 6,
         max_ops: (40, 100),
-        cases: (12_000, 400_000),
+        cases: (24_000, 400_000),
         make: || Box::new(Mon06::default()),
         rule: "engine histories that bring positions near / below maintenance: whale trades sized by bisection so that a chosen trader's ratio lands at maintenance -30%..+10% (Squeeze), funding drains, oracle moved within / beyond 10% of spot on both sides, trades in one block and 15 min / hours apart (spot != TWAP), all maintenance / liquidation-fee / partial-ratio settings, callers = liquidator, stranger, owner, other traders, the trader itself. For every successful Liquidate the pre-state ratio is recomputed from API answers (OutputAmount, OutputTwap, SpotPrice, UnderlyingPrice, Position, cumulative fraction): PnL of smaller magnitude among spot and TWAP, r = trunc((M + pnl - F)*D/n), replaced by the oracle-priced ratio when |spot-oracle|/oracle >= 10% and higher; r must be <= maintenance. Payouts from dispatched transfers: position gone: liquidator gets floor(floor(Q*fee/D)/2), trader nothing, vault->fund = max(0, M + PnL - F) - liquidator fee (floored at 0); position remains: |size| falls by exactly floor(|size|*fraction/D) with the same sign, liquidator and fund get floor(floor(Q*fee/D)/2) each. Non-trivial: a history with a successful liquidation and an attempt within 2% of maintenance, or where the TWAP PnL is the chosen one, or where the oracle override applies. Distinct by digest of (cfg, ops).",
         assumptions: &["OutputAmount / OutputTwap / UnderlyingPrice are the vAMM's API and are themselves checked by C17/C18; the ratio, the three-way choice and the comparison are recomputed independently"],
@@ -421,7 +421,7 @@ pub fn prop07() -> HistProp {
         weights: wts,
         min_ops: 6,
         max_ops: (40, 100),
-        cases: (12_000, 400_000),
+        cases: (24_000, 400_000),
         make: || Box::new(Mon07::default()),
         rule: "histories as in C06 with emphasis on deeply negative equity, vaults drained by profitable closes, every partial-liquidation ratio, small and large insurance fund. One-step liveness: if in the pre-state the recomputed liquidation ratio r < maintenance (strict), the vAMM is open and registered, OutputAmount answers for the whole (and, when a partial ratio is set, the partial) size, the spot price lies within [p(1-l), p(1+l)] of the previous block's final price p when a band l is configured (edges included; 4 in 9 vAMMs have a band, and whale orders sized to land exactly on the edge are generated), the liquidation fee ratio is non-zero and the fund's balance exceeds M + |PnL| + |F| + Q, then Liquidate{quote_asset_limit: 0} by the generated caller must succeed. Attempts with a false precondition are counted as such, not as passes. Non-trivial: a qualifying attempt with r < 0, or vault balance below the remaining margin, or a partial ratio set. Distinct by digest of (cfg, ops).",
         assumptions: &["the previous block's final price is recorded by the harness at every block boundary", "the fund bound M + |PnL| + |F| + Q is conservative (sufficient, not necessary)"],
